@@ -852,6 +852,18 @@ func ruleGuardProfile(c *Ctx, r *Rep) {
 				}
 			}
 			r.Check(ok, sprintf("success-exit|%s#%d", fk, k), c.Pos(ret.Pos()), "a successful exit lies behind a passed validation, or behind a test that the Profile field is empty", how)
+			// and where a profile is named, what is handed back is what the merge made of the two (the profile's
+			// validity and extensions reach the certificate through nothing else)
+			if how == "behind a passed validation" && len(res) == 2 {
+				o := pv.Origins(res[0])
+				merged := len(o) > 0
+				for _, x := range o {
+					if !strings.Contains(x, "config.Merge(") {
+						merged = false
+					}
+				}
+				r.Check(merged, sprintf("merged-result|%s#%d", fk, k), c.Pos(ret.Pos()), "with a profile named, the configuration handed back is the result of config.Merge", strings.Join(head(o, 2), " , "))
+			}
 		}
 	}
 	if n == 0 {
@@ -1077,6 +1089,30 @@ func rulePadCopy(c *Ctx, r *Rep) {
 		for _, ci := range callsIn(fn) {
 			b, ok := ci.Common().Value.(*ssa.Builtin)
 			if !ok || b.Name() != "copy" {
+				continue
+			}
+			// a source copied to the front of a buffer of another length that is then read as a big-endian number (a
+			// scalar handed to the curve): a shorter source must go to the low-order end
+			if mk, isMk := ci.Common().Args[0].(*ssa.MakeSlice); isMk {
+				src0 := ci.Common().Args[1]
+				if of, _, okL := lenPlus(mk.Len); !okL || !same(of, src0) {
+					bigEndian := ""
+					for _, ref := range *mk.Referrers() {
+						if use, ok := ref.(ssa.CallInstruction); ok && use != ci {
+							name := calleeFullName(use)
+							if use.Common().IsInvoke() {
+								name = use.Common().Method.Name()
+							}
+							if strings.Contains(name, "ScalarBaseMult") || strings.Contains(name, "ScalarMult") || strings.HasSuffix(name, "SetBytes") {
+								bigEndian = name
+							}
+						}
+					}
+					if bigEndian != "" {
+						n++
+						r.Check(false, sprintf("offset|%s#%d", c.FuncKey(fn), n), c.Pos(ci.Pos()), "len(buffer) - len(source)", "copied to the front of a buffer that "+bigEndian+" reads as a big-endian number")
+					}
+				}
 				continue
 			}
 			dst, ok := ci.Common().Args[0].(*ssa.Slice)
@@ -3687,6 +3723,162 @@ func ruleKnownEmpty(c *Ctx, r *Rep) {
 					r.Check(!empty, sprintf("stored-where-present|%s#%d", c.FuncKey(fn), n), c.Pos(st.Pos()), "the value is stored where the test found it non-empty", sprintf("known empty here: %v", empty))
 				}
 			}
+		}
+	}
+}
+
+func init() {
+	register(&Rule{Name: "LINT-LOOPVAR", Floor: 0, Run: ruleLoopVarAddr, Fixture: "fixture.addressOfLoopVariableKept",
+		Doc: "the address of a variable that lives across the rounds of a loop and is assigned anew in each round (a range variable under the module's go 1.20 semantics) is not kept in a map, a list or a field inside that loop: every entry would point at the value of the last round"})
+}
+
+// ruleLoopVarAddr: a local made outside a loop, stored to inside the loop, whose address is put away inside the loop.
+func ruleLoopVarAddr(c *Ctx, r *Rep) {
+	for _, fn := range c.Funcs {
+		loops := naturalLoops(fn)
+		if len(loops) == 0 {
+			continue
+		}
+		n := 0
+		for _, b := range fn.Blocks {
+			for _, ins := range b.Instrs {
+				al, ok := ins.(*ssa.Alloc)
+				if !ok || !al.Heap {
+					continue
+				}
+				for _, body := range loops {
+					if body[al.Block()] {
+						continue // a variable of the round itself
+					}
+					assigned := false
+					var kept ssa.Instruction
+					for _, ref := range *al.Referrers() {
+						if !body[ref.Block()] {
+							continue
+						}
+						switch u := ref.(type) {
+						case *ssa.Store:
+							if u.Addr == ssa.Value(al) {
+								assigned = true
+							} else if u.Val == ssa.Value(al) {
+								kept = u
+							}
+						case *ssa.MapUpdate:
+							if u.Value == ssa.Value(al) {
+								kept = u
+							}
+						case *ssa.MakeInterface:
+							// boxed and then put away
+							for _, r2 := range *u.Referrers() {
+								switch u2 := r2.(type) {
+								case *ssa.MapUpdate:
+									if u2.Value == ssa.Value(u) && body[u2.Block()] {
+										kept = u2
+									}
+								case *ssa.Store:
+									if u2.Val == ssa.Value(u) && body[u2.Block()] {
+										if _, isIdx := u2.Addr.(*ssa.IndexAddr); !isIdx {
+											kept = u2
+										}
+									}
+								}
+							}
+						}
+					}
+					if !assigned || kept == nil {
+						continue
+					}
+					// a store into the element of a variadic argument list is a call argument, not a keeping
+					if st, ok := kept.(*ssa.Store); ok {
+						if ia, ok := st.Addr.(*ssa.IndexAddr); ok {
+							if a2, ok := ia.X.(*ssa.Alloc); ok && a2.Comment == "varargs" {
+								continue
+							}
+						}
+					}
+					n++
+					r.Check(false, sprintf("loop-variable-address|%s#%d", c.FuncKey(fn), n), c.Pos(kept.Pos()), "the address of a variable reassigned in every round is not put away inside the loop", "address of "+al.Comment+" kept here")
+				}
+			}
+		}
+	}
+}
+
+func init() {
+	register(&Rule{Name: "LINT-MAPORDER", Floor: 0, Run: ruleMapOrder, Fixture: "fixture.listBuiltInMapOrder",
+		Doc: "no list, buffer or output is filled in the order in which a map is ranged over (the order differs from run to run; a merged configuration built that way hashes differently each time it is read)"})
+}
+
+// ruleMapOrder: inside a loop over a map, no append to a list that outlives the loop and no write to a buffer or writer,
+// unless the list is sorted after the loop.
+func ruleMapOrder(c *Ctx, r *Rep) {
+	for _, fn := range c.Funcs {
+		loops := naturalLoops(fn)
+		n := 0
+		for h, body := range loops {
+			// a map loop: the header takes the next element of a range over a map
+			var rng *ssa.Range
+			for _, ins := range h.Instrs {
+				if nx, ok := ins.(*ssa.Next); ok && !nx.IsString {
+					if rg, ok := nx.Iter.(*ssa.Range); ok {
+						if _, isMap := rg.X.Type().Underlying().(*types.Map); isMap {
+							rng = rg
+						}
+					}
+				}
+			}
+			if rng == nil {
+				continue
+			}
+			n++
+			bad := ""
+			var at token.Pos
+			for b := range body {
+				for _, ins := range b.Instrs {
+					call, ok := ins.(*ssa.Call)
+					if !ok {
+						continue
+					}
+					if bi, isB := call.Call.Value.(*ssa.Builtin); isB && bi.Name() == "append" {
+						// does the grown list leave the loop (through the header's phi or a store)?
+						leaves := false
+						for _, ref := range *call.Referrers() {
+							switch u := ref.(type) {
+							case *ssa.Phi:
+								leaves = leaves || u.Block() == h || !body[u.Block()]
+							case *ssa.Store, *ssa.MapUpdate:
+								leaves = true
+							}
+						}
+						if !leaves {
+							continue
+						}
+						// sorted afterwards?
+						sorted := false
+						for _, ci := range callsIn(fn) {
+							name := calleeFullName(ci)
+							if (strings.HasPrefix(name, "sort.") || strings.HasPrefix(name, "slices.Sort")) && !body[ci.Block()] && h.Dominates(ci.Block()) {
+								sorted = true
+							}
+						}
+						if !sorted {
+							bad, at = "a list is appended to in map order", call.Pos()
+						}
+						continue
+					}
+					name := calleeFullName(call)
+					if call.Call.IsInvoke() {
+						name = call.Call.Method.Name()
+					}
+					if strings.HasPrefix(name, "(*bytes.Buffer).Write") || name == "Write" || strings.HasPrefix(name, "fmt.Fprint") || strings.HasPrefix(name, "(*strings.Builder).Write") {
+						bad, at = "output is written in map order", call.Pos()
+					}
+				}
+			}
+			if !at.IsValid() {
+				at = rng.Pos()
+			}
+			r.Check(bad == "", sprintf("map-order|%s#%d", c.FuncKey(fn), n), c.Pos(at), "nothing ordered is built in the order of a map", bad)
 		}
 	}
 }
